@@ -204,17 +204,30 @@ type run struct {
 	out  *vh.Out
 	tr   tracerObj
 	mu   sync.Mutex
-	open map[int]bool
+	open map[int]string // calls that have not returned: id -> "trace" | "close"
 	next int
 	nev  int
 }
 
-func (r *run) id() int {
+func (r *run) id(op string) int {
 	r.mu.Lock()
 	defer r.mu.Unlock()
 	r.next++
-	r.open[r.next] = true
+	r.open[r.next] = op
 	return r.next
+}
+
+// tracesOut is the number of Trace calls that have not returned.
+func (r *run) tracesOut() int {
+	r.mu.Lock()
+	defer r.mu.Unlock()
+	n := 0
+	for _, op := range r.open {
+		if op == "trace" {
+			n++
+		}
+	}
+	return n
 }
 
 func (r *run) ev() int {
@@ -225,10 +238,11 @@ func (r *run) ev() int {
 }
 
 func (r *run) ret(id int, res string) {
+	// log first: whoever then sees the call as returned (the real-time drivers poll blocked()) finds its line written
+	r.out.Emit(M{"e": "ret", "id": id, "res": res})
 	r.mu.Lock()
 	delete(r.open, id)
 	r.mu.Unlock()
-	r.out.Emit(M{"e": "ret", "id": id, "res": res})
 }
 
 func (r *run) blocked() []int {
@@ -254,14 +268,14 @@ func guarded(f func()) (res string) {
 
 // callTrace announces a Trace call; the returned function performs it.
 func (r *run) callTrace(pad int) func() {
-	id, x := r.id(), r.ev()
+	id, x := r.id("trace"), r.ev()
 	r.out.Emit(M{"e": "call", "id": id, "op": "trace", "x": x})
 	e := mkEvt(x, pad)
 	return func() { r.ret(id, guarded(func() { r.tr.Trace(e) })) }
 }
 
 func (r *run) callClose() func() {
-	id := r.id()
+	id := r.id("close")
 	r.out.Emit(M{"e": "call", "id": id, "op": "close"})
 	return func() { r.ret(id, guarded(func() { r.tr.Close() })) }
 }
@@ -406,7 +420,7 @@ func TestX08File(t *testing.T) {
 func fileScenario(out *vh.Out, wd *watchdog, s fileScn, kind string, lossy bool) {
 	out.Emit(M{"e": "reset", "kind": kind, "ctor": "verif", "lossy": lossy, "bound": fileBound})
 	g := newGateW(out, kind)
-	r := &run{out: out, open: map[int]bool{}}
+	r := &run{out: out, open: map[int]string{}}
 	if kind == "json" {
 		r.tr = pubsub.VerifNewJSONTracerW(g, lossy)
 	} else {
